@@ -23,23 +23,27 @@ import (
 )
 
 var (
-	role    = flag.String("role", "driver", "driver|worker|one|replay")
-	propID  = flag.String("prop", "", "property id")
-	tier    = flag.String("tier", "quick", "quick|thorough")
-	seed    = flag.Int64("seed", 1, "VERIF_SEED")
-	workers = flag.Int("workers", 16, "worker processes")
-	wIdx    = flag.Int("w", 0, "worker index")
-	runsF   = flag.Int("runs", 0, "override number of runs")
-	maxSec  = flag.Int("maxsec", 0, "wall-clock cap per worker (0 = tier default)")
-	outF    = flag.String("out", "", "worker output file")
-	verifD  = flag.String("verif", "/verif", "verif dir")
-	repoD   = flag.String("repo", "", "instrumented scratch copy of the repository")
-	origD   = flag.String("orig", "/repo", "original repository")
-	scratch = flag.String("scratch", "", "scratch dir")
-	tapeF   = flag.String("tape", "", "tape file (role one)")
-	fileF   = flag.String("file", "", "replay file (role replay)")
-	dumpLog = flag.String("dumplog", "", "worker: write per-run log hashes to this file (determinism self-test)")
-	noEvid  = flag.Bool("noevidence", false, "driver: do not write evidence (self-test)")
+	role     = flag.String("role", "driver", "driver|worker|one|replay")
+	propID   = flag.String("prop", "", "property id")
+	tier     = flag.String("tier", "quick", "quick|thorough")
+	seed     = flag.Int64("seed", 1, "VERIF_SEED")
+	workers  = flag.Int("workers", 16, "worker processes")
+	wIdx     = flag.Int("w", 0, "worker index")
+	runsF    = flag.Int("runs", 0, "override number of runs")
+	maxSec   = flag.Int("maxsec", 0, "wall-clock cap per worker (0 = tier default)")
+	outF     = flag.String("out", "", "worker output file")
+	verifD   = flag.String("verif", "/verif", "verif dir")
+	repoD    = flag.String("repo", "", "instrumented scratch copy of the repository")
+	origD    = flag.String("orig", "/repo", "original repository")
+	scratch  = flag.String("scratch", "", "scratch dir")
+	tapeF    = flag.String("tape", "", "tape file (role one)")
+	fileF    = flag.String("file", "", "replay file (role replay)")
+	dumpLog  = flag.String("dumplog", "", "worker: write per-run log hashes to this file (determinism self-test)")
+	noEvid   = flag.Bool("noevidence", false, "driver: do not write evidence (self-test)")
+	replayD  = flag.String("replaydir", "", "driver: directory for replay files (default <verif>/replays)")
+	coldN    = flag.Int("coldruns", -1, "worker: number of cold-start runs of the batch (-1 = none)")
+	coldF    = flag.Bool("cold", false, "role one: cold-start run (no warm-up; the process executes exactly this run)")
+	liveSeed = flag.Uint64("liveseed", 0, "role one: draw live from this seed instead of replaying a tape")
 )
 
 // ChildPrefix is put before the arguments of every child process (the test
@@ -49,7 +53,7 @@ var ChildPrefix []string
 func childArgs(a ...string) []string { return append(append([]string{}, ChildPrefix...), a...) }
 
 func env() *core.Env {
-	return &core.Env{Tier: *tier, RepoDir: *repoD, OrigRepo: *origD, Scratch: *scratch, Race: report.RaceBuild}
+	return &core.Env{Tier: *tier, RepoDir: *repoD, OrigRepo: *origD, Scratch: *scratch, Race: report.RaceBuild, Cold: *coldF}
 }
 
 func die(code int, f string, a ...any) {
@@ -118,6 +122,26 @@ func worker() {
 			fmt.Fprintf(logf, "%d %016x %016x\n", i, src.Hash(), res.LogHash)
 		}
 	}
+	// cold-start stratum: each run in a fresh process that has not warmed up
+	if *coldN > 0 {
+		nc := *coldN
+		for j := *wIdx; j < nc; j += *workers {
+			if capSec > 0 && time.Since(start) > time.Duration(capSec)*time.Second {
+				break
+			}
+			ls := tape.Mix(*seed, *propID+"/cold", j)
+			o, err := evalProc(nil, ls, true, false)
+			if err != nil {
+				if len(out.Infra) < 5 {
+					out.Infra = append(out.Infra, fmt.Sprintf("cold run %d: %v", j, err))
+				}
+				continue
+			}
+			res := o.result()
+			res.Probes["cold-start-run"]++
+			out.AddRaw(1000000000+j, o.Used, o.TapeHash, res, true)
+		}
+	}
 	out.WallS = time.Since(start).Seconds()
 	if err := out.Write(*outF); err != nil {
 		die(2, "write %s: %v", *outF, err)
@@ -137,27 +161,62 @@ func safeRun(p core.Property, src *tape.Source, trace bool) (res *core.Result) {
 // ---------------------------------------------------------------- one (fresh-process evaluation of one tape)
 
 type oneOut struct {
-	Violations []core.Violation `json:"violations"`
-	Used       []uint32         `json:"used"`
-	Trace      []string         `json:"trace"`
-	Infra      string           `json:"infra"`
-	LogHash    uint64           `json:"loghash"`
+	Violations []core.Violation  `json:"violations"`
+	Used       []uint32          `json:"used"`
+	Trace      []string          `json:"trace"`
+	Infra      string            `json:"infra"`
+	LogHash    uint64            `json:"loghash"`
+	TapeHash   uint64            `json:"tapehash"`
+	Nontrivial bool              `json:"nontrivial"`
+	CaseKey    uint64            `json:"casekey"`
+	Faults     map[string]int    `json:"faults"`
+	Probes     map[string]int    `json:"probes"`
+	Extra      map[string]uint64 `json:"extra"`
+	Steps      int64             `json:"steps"`
+	Evals      int               `json:"evals"`
+}
+
+func mkOneOut(src *tape.Source, res *core.Result) *oneOut {
+	return &oneOut{res.Violations, append([]uint32(nil), src.Rec...), res.Trace, res.Infra, res.LogHash, src.Hash(),
+		res.Nontrivial, res.CaseKey, res.Faults, res.Probes, res.Extra, res.Steps, res.Evals}
+}
+
+func (o *oneOut) result() *core.Result {
+	r := core.NewResult()
+	r.Violations, r.Trace, r.Infra, r.LogHash, r.Nontrivial, r.CaseKey, r.Steps, r.Evals = o.Violations, o.Trace, o.Infra, o.LogHash, o.Nontrivial, o.CaseKey, o.Steps, o.Evals
+	for k, v := range o.Faults {
+		r.Faults[k] = v
+	}
+	for k, v := range o.Probes {
+		r.Probes[k] = v
+	}
+	for k, v := range o.Extra {
+		r.Extra[k] = v
+	}
+	if r.Evals == 0 {
+		r.Evals = 1
+	}
+	return r
 }
 
 func one() {
 	p := getProp()
-	var t []uint32
-	b, err := os.ReadFile(*tapeF)
-	if err != nil {
-		die(2, "%v", err)
+	var src *tape.Source
+	if *liveSeed != 0 {
+		src = tape.Live(*liveSeed)
+	} else {
+		var t []uint32
+		b, err := os.ReadFile(*tapeF)
+		if err != nil {
+			die(2, "%v", err)
+		}
+		if err := json.Unmarshal(b, &t); err != nil {
+			die(2, "%v", err)
+		}
+		src = tape.Replay(t)
 	}
-	if err := json.Unmarshal(b, &t); err != nil {
-		die(2, "%v", err)
-	}
-	src := tape.Replay(t)
 	res := safeRun(p, src, true)
-	o := oneOut{res.Violations, src.Rec, res.Trace, res.Infra, res.LogHash}
-	jb, _ := json.Marshal(o)
+	jb, _ := json.Marshal(mkOneOut(src, res))
 	if *outF != "" {
 		os.WriteFile(*outF, jb, 0o644)
 	} else {
@@ -171,8 +230,14 @@ func evalTape(p core.Property, t []uint32, fresh bool, trace bool) (*oneOut, err
 	if !fresh {
 		src := tape.Replay(t)
 		res := safeRun(p, src, trace)
-		return &oneOut{res.Violations, append([]uint32(nil), src.Rec...), res.Trace, res.Infra, res.LogHash}, nil
+		return mkOneOut(src, res), nil
 	}
+	return evalProc(t, 0, false, trace)
+}
+
+// evalProc evaluates one run in a fresh child process: a tape replay, or (live
+// != 0) a live run from a seed; cold = no warm-up in the child.
+func evalProc(t []uint32, live uint64, cold bool, trace bool) (*oneOut, error) {
 	dir, err := os.MkdirTemp(*scratch, "one")
 	if err != nil {
 		return nil, err
@@ -182,8 +247,15 @@ func evalTape(p core.Property, t []uint32, fresh bool, trace bool) (*oneOut, err
 	tf := filepath.Join(dir, "tape.json")
 	of := filepath.Join(dir, "out.json")
 	os.WriteFile(tf, tb, 0o644)
-	cmd := exec.Command(os.Args[0], childArgs("-role", "one", "-prop", *propID, "-tier", *tier, "-tape", tf, "-out", of,
-		"-repo", *repoD, "-orig", *origD, "-scratch", dir, "-verif", *verifD)...)
+	args := []string{"-role", "one", "-prop", *propID, "-tier", *tier, "-tape", tf, "-out", of,
+		"-repo", *repoD, "-orig", *origD, "-scratch", dir, "-verif", *verifD}
+	if live != 0 {
+		args = append(args, "-liveseed", fmt.Sprint(live))
+	}
+	if cold {
+		args = append(args, "-cold")
+	}
+	cmd := exec.Command(os.Args[0], childArgs(args...)...)
 	cmd.Env = append(os.Environ(), "GORACE=halt_on_error=0 exitcode=0 suppress_equal_stacks=0 suppress_equal_addresses=0 log_path="+filepath.Join(dir, "race"))
 	cmd.Stderr = nil
 	if err := runTimeout(cmd, 120*time.Second); err != nil {
@@ -253,6 +325,9 @@ func driver() {
 		args := []string{"-role", "worker", "-prop", *propID, "-tier", *tier, "-seed", fmt.Sprint(*seed),
 			"-workers", fmt.Sprint(W), "-w", fmt.Sprint(w), "-runs", fmt.Sprint(n), "-maxsec", fmt.Sprint(capSec),
 			"-out", outs[w], "-repo", *repoD, "-orig", *origD, "-scratch", *scratch, "-verif", *verifD}
+		if cr, ok := p.(interface{ ColdRuns(tier string) int }); ok {
+			args = append(args, "-coldruns", fmt.Sprint(cr.ColdRuns(*tier)))
+		}
 		c := exec.Command(os.Args[0], childArgs(args...)...)
 		c.Env = append(os.Environ(), "GORACE=halt_on_error=0 exitcode=0 suppress_equal_stacks=0 suppress_equal_addresses=0 log_path="+filepath.Join(*scratch, fmt.Sprintf("race.%d", w)), "GOMAXPROCS=2")
 		ef, _ := os.Create(filepath.Join(*scratch, fmt.Sprintf("worker.%d.stderr", w)))
@@ -301,6 +376,9 @@ func driver() {
 	sort.Strings(keys)
 	unlisted := 0
 	replayDir := filepath.Join(*verifD, "replays", *propID)
+	if *replayD != "" {
+		replayDir = filepath.Join(*replayD, *propID)
+	}
 	for _, k := range keys {
 		rec := agg.Viol[k]
 		if kf := known.Match(*propID, rec.V.Oracle, rec.V.Sig); kf != nil {
@@ -324,8 +402,17 @@ func driver() {
 		}); ok {
 			budget, dur = sb.ShrinkBudget()
 		}
+		if rec.Cold {
+			budget, dur = 60, 60*time.Second
+		}
+		evalC := func(c []uint32, tr bool) (*oneOut, error) {
+			if rec.Cold {
+				return evalProc(c, 0, true, tr)
+			}
+			return evalTape(p, c, false, tr)
+		}
 		min, evals = tape.Shrink(orig, nil, func(c []uint32) (bool, []uint32) {
-			o, err := evalTape(p, c, false, false)
+			o, err := evalC(c, false)
 			if err != nil || o.Infra != "" {
 				return false, nil
 			}
@@ -333,13 +420,19 @@ func driver() {
 		}, budget, dur)
 		// final decoded trace from the minimised tape; fall back to the original when the
 		// minimised one does not reproduce (flaky shrink) – the original always is a replay.
-		fin, err := evalTape(p, min, fresh, true)
+		evalF := func(c []uint32) (*oneOut, error) {
+			if rec.Cold {
+				return evalProc(c, 0, true, true)
+			}
+			return evalTape(p, c, fresh, true)
+		}
+		fin, err := evalF(min)
 		if err != nil || !has(fin.Violations, rec.V.Oracle, rec.V.Sig) {
 			min = orig
-			fin, err = evalTape(p, min, fresh, true)
+			fin, err = evalF(min)
 		}
 		rf := report.ReplayFile{Property: *propID, Tier: *tier, Seed: *seed, Run: rec.Run, Oracle: rec.V.Oracle, Signature: rec.V.Sig,
-			Message: rec.V.Msg, Tape: min, OriginalTape: orig, ShrinkEvals: evals, Toolchain: runtime.Version(), Race: report.RaceBuild}
+			Message: rec.V.Msg, Tape: min, OriginalTape: orig, ShrinkEvals: evals, Toolchain: runtime.Version(), Race: report.RaceBuild, Cold: rec.Cold}
 		if err == nil && fin != nil {
 			rf.Trace = fin.Trace
 			for _, v := range fin.Violations {
@@ -408,7 +501,12 @@ func replay() {
 	*propID = rf.Property
 	*tier = rf.Tier
 	p := getProp()
-	o, err := evalTape(p, rf.Tape, report.RaceBuild, true)
+	var o *oneOut
+	if rf.Cold {
+		o, err = evalProc(rf.Tape, 0, true, true)
+	} else {
+		o, err = evalTape(p, rf.Tape, report.RaceBuild, true)
+	}
 	if err != nil {
 		die(2, "replay: %v", err)
 	}
